@@ -187,11 +187,8 @@ def check(case, obs):
             out.append((key or ("answer/" + nm), "%s answered %s: %s" % (what, json_short(ans), msg)))
 
         if ans[0] == "err":
-            edge_dep = nm in ("edge", "cell_to_edge", "edge_id", "is_edge_on_border", "is_edge_on_border_v",
-                              "boundary_edges", "interior_edges", "enable_bc")
-            if edge_dep and case["sort"] and nonmanifold_edges and "KeyError" in ans[1]:
-                bad("raised on a conforming mesh whose edge %s is shared by cells not connected through faces" % edges[nonmanifold_edges[0]],
-                    key="edge-nonmanifold/sort-KeyError")
+            if False:
+                pass
             elif nm == "is_face_on_border_v" and frozenset(a) not in B.fid:
                 pass   # not a face: nothing promised
             else:
